@@ -1,7 +1,8 @@
 
 from __future__ import annotations
 
-from datetime import datetime, timezone, tzinfo
+import re
+from datetime import datetime, timedelta, timezone, tzinfo
 
 from .. import Params, Parseable
 from ..exceptions import InvalidContent
@@ -19,6 +20,9 @@ class DateTime(Parseable[datetime]):
         raw: The raw bytestring from IMAP parsing.
 
     """
+
+    _pattern = re.compile(
+        r' ?\d{1,2}-[A-Za-z]{3}-\d{4} \d\d:\d\d:\d\d [+-]\d{4}')
 
     def __init__(self, when: datetime, raw: bytes | None = None) -> None:
         super().__init__()
@@ -48,6 +52,9 @@ class DateTime(Parseable[datetime]):
         string, after = QuotedString.parse(buf, params)
         try:
             when_str = str(string.value, 'ascii')
+            if not cls._pattern.fullmatch(when_str):
+                # strptime also takes short years and zones like Z or +01:00
+                raise ValueError(when_str)
             when = datetime.strptime(when_str, '%d-%b-%Y %X %z')
         except ValueError as exc:
             raise InvalidContent(buf) from exc
@@ -55,6 +62,20 @@ class DateTime(Parseable[datetime]):
 
     def __bytes__(self) -> bytes:
         if self._raw is None:
-            raw_str = self.value.strftime('%d-%b-%Y %X %z')
+            when = self.value
+            offset = when.utcoffset() or timedelta()
+            if offset % timedelta(minutes=1):
+                # a zone is written in hours and minutes only
+                try:
+                    when = when.astimezone(timezone.utc)
+                except (OverflowError, ValueError):
+                    pass
+                offset = timedelta()
+            minutes = abs(offset) // timedelta(minutes=1)
+            zone = '%s%02d%02d' % ('-' if offset < timedelta() else '+',
+                                   minutes // 60, minutes % 60)
+            # strftime does not pad the year to four digits
+            raw_str = when.strftime('%d-%b-') + '%04d' % when.year \
+                + when.strftime(' %X ') + zone
             self._raw = bytes(raw_str, 'ascii')
         return BytesFormat(b'"%b"') % (self._raw, )
